@@ -215,7 +215,7 @@ func RunCase(ck *Check, tier string, seed int64, idx int, bin, root, scratchBase
 	scratch := filepath.Join(scratchBase, fmt.Sprintf("case-%d", idx))
 	_ = os.RemoveAll(scratch)
 	_ = os.MkdirAll(scratch, 0o755)
-	ctx := &Ctx{Prop: ck.ID, Tier: tier, Seed: seed, Idx: idx, Bin: bin, Root: root, Repo: "/repo", scratch: scratch, Res: res, Race: race}
+	ctx := &Ctx{Prop: ck.ID, Tier: tier, Seed: seed, Idx: idx, Bin: bin, Root: root, Repo: repoDir(), scratch: scratch, Res: res, Race: race}
 	func() {
 		defer func() {
 			if r := recover(); r != nil {
@@ -350,4 +350,11 @@ func sortedKeys(m map[string]int) []string {
 	}
 	sort.Strings(ks)
 	return ks
+}
+
+func repoDir() string {
+	if d := os.Getenv("VERIF_REPO"); d != "" {
+		return d
+	}
+	return "/repo"
 }
